@@ -89,6 +89,7 @@ def _script(spec, t, **kw):
 
 def run_unit(unit, rec):
     spec, names, tier = unit["spec"], unit["names"], unit["tier"]
+    cu = {"x1e-3": 1e-3, "x1e-5": 1e-5, "x1e3": 1e3}.get(names.get("capture_unit"), 1.0)
     try:
         est = B.make_est(spec, rec=rec)
     except Exception as e:  # noqa
@@ -153,7 +154,8 @@ def run_unit(unit, rec):
                 mn, mx = np.asarray(mn, dtype=float), np.asarray(mx, dtype=float)
                 opt, xs, _ = O.box_lsq_bounds(Abar, t, lo, hi, c0=c0)
                 val = float(np.linalg.norm(Abar @ mn + c0 - t))
-                okv = np.array_equal(mn, mx) and val <= opt + 2e-2 and np.all(mn >= lo - 0.01 * rng_) and np.all(mn <= hi + 0.01 * rng_)
+                # the solver's accuracy (2e-2) is stated in well-scaled capture units (C04); in another capture unit it scales with the unit
+                okv = np.array_equal(mn, mx) and val <= opt + 2e-2 * max(1.0, cu) and np.all(mn >= lo - 0.01 * rng_) and np.all(mn <= hi + 0.01 * rng_)
                 if mode == "warn" and not any(issubclass(w.category, RuntimeWarning) for w in wl):
                     _v(rec, "e", dict(sig, mode=mode, what="no-warning"), "error='warn' issued no warning for an out-of-gamut target", case)
                 if not okv:
@@ -180,7 +182,7 @@ def run_unit(unit, rec):
                 mn, mx = est.range_of_solutions(t, error="ignore")
                 mn, mx = np.asarray(mn, dtype=float), np.asarray(mx, dtype=float)
                 val = float(np.linalg.norm(Abar @ mn + c0 - t))
-                if not (np.array_equal(mn, mx) and val <= 2e-2):
+                if not (np.array_equal(mn, mx) and val <= 2e-2 * max(1.0, cu)):
                     _v(rec, "e", dict(sig, mode="ignore", target="boundary"), "boundary target taken as outside: fallback is not the best fit (residual %.3g)" % val, case, observed=dict(min=mn, max=mx))
             except Exception as e:  # noqa
                 _v(rec, "e", dict(sig, mode="ignore", **exc_sig(e)), "error='ignore' raised %r" % (e,), case)
